@@ -21,6 +21,7 @@ FLAVOR = "asan"
 ASAN_ENV = {"ASAN_OPTIONS": "detect_stack_use_after_return=1:detect_leaks=0:abort_on_error=0", "UBSAN_OPTIONS": "halt_on_error=1"}
 BULK_ENV = dict(ASAN_ENV, ASAN_OPTIONS=ASAN_ENV["ASAN_OPTIONS"] + ":symbolize=0")     # reports are symbolised only in replays
 FINDING_KEY = "chaiscript_eval.hpp:Ranged_For_AST_Node:element-reference"
+FINDING_KEY_REF = "handle_return.hpp:Handle_Return<T&>:reference-into-temporary-owner"
 
 # rshape indices = position in LifeDefs.all_rshapes
 RS = {n: i for i, n in enumerate(["RValue", "RValueTrivial", "RCValue", "RRef", "RCRef", "RPtr", "RCPtr", "RPtrRef", "RCPtrRef", "RShared", "RSharedRef",
@@ -390,6 +391,10 @@ class Exec:
         self.call_end()
         return Val(t, "B", Data(False), st)
 
+    def ev_callv(self, fname, args):
+        """f(args) for a closure held in a variable, used as an expression"""
+        return self.do_script_call(("clo", fname), args, want=True)
+
     def ev_call(self, fname, args):
         """call of a script function (def) returning a value"""
         return self.do_script_call(("def", fname), args, want=True)
@@ -473,6 +478,8 @@ class Exec:
             res = Val(ret, rv.kind, rv.data, rv.st, rv.borrowed)
         self.pop(owns_params=False)
         self.emit(11, base + 1)
+        for a in avs:
+            self.emit(5, a.path)        # the argument vector of the Fun_Call node dies when the node returns
         self.call_end()
         return res
 
@@ -511,7 +518,7 @@ class Exec:
             self.pop()      # the value of the block (a temporary of the evaluator) outlives the scope
         return res
 
-    FUN_CALL_STMTS = ("cxxcall", "callf", "calld", "keep", "cp", "release", "throw", "fail", "reseat")
+    FUN_CALL_STMTS = ("cxxcall", "callf", "calld", "keep", "cp", "release", "throw", "fail", "reseat", "expr")
 
     def stmt(self, s, saving=True, want=False):
         base = self.tk
@@ -784,11 +791,15 @@ class Exec:
     def st_cfor(self, ivar, n, body):
         """for (var i = 0; i < n; ++i) { body }"""
         self.push()
-        self.newvar(ivar, "I", Data(False))
+        iv = self.newvar(ivar, "I", Data(False))
+        self.emit(0, iv.path, 0)                    # the counter: an int owned by the Boxed_Value of the loop variable
         if not self.opt:
             self.call_begin(); self.call_end()      # unoptimised: the init statement `var i = 0` is an Equation
         try:
-            for it in range(n):
+            for it in range(n + 1):
+                self.emit(15, iv.path, it)          # the value of the counter (the loop is left with i == n unless by break)
+                if it == n:
+                    break
                 self.iters[ivar] = it
                 try:
                     self.block(body, in_cloop=True)
@@ -800,6 +811,48 @@ class Exec:
                     raise
         finally:
             self.pop()
+
+    # ---- loop counters referred to after their loop (value observations)
+    def st_refbind(self, keep, ivar):
+        """keep := i  : the variable shares the int of the counter"""
+        self.call_begin()
+        a = self.ev_var(ivar)
+        kv = self.lookup(keep)
+        if kv.kind != "U":
+            self.emit(5, kv.path)
+        kv.kind = "I"
+        self.emit(1, a.path, kv.path)
+        self.call_end()
+
+    def st_cpush(self, vec, mode, ivar):
+        """vs.push_back_ref(i) | vs.push_back(i) | vs.push_back(bind(ident, i)) | vs.push_back(fun[i]() { i })"""
+        self.call_begin()
+        c = self.ev(("var", vec))
+        a = self.ev_var(ivar)
+        n = c.st.add(c.st.next, Data(False), "IV", mode)
+        dst = slot(c.path, n)
+        if mode == "ref":
+            self.emit(1, a.path, dst)
+        elif mode == "copy":
+            self.emit(0, dst, 0)
+            self.emit(15, dst, self.iters[ivar])
+        else:
+            self.emit(0, dst, 0)                    # the Bound_Function / closure object
+            self.emit(1, a.path, slot(dst, 0))
+        self.call_end()
+
+    def st_checkval(self, label, src):
+        """checkval(label, e): the int read through the handle"""
+        self.call_begin()
+        if src[0] == "var":
+            p = self.lookup(src[1]).path
+        else:
+            c = self.lookup(src[1])
+            n, data, kind, mode = c.st.slots[c.st.order[src[2]]]
+            p = slot(c.path, n) if mode in ("ref", "copy") else slot(slot(c.path, n), 0)
+        self.emit(16, p)
+        self.names.append("val:" + label)
+        self.call_end()
 
     def st_breakif(self, ivar, it):
         if self.iters[ivar] == it:
@@ -875,8 +928,11 @@ class Exec:
         self.emit(4, v.path, ret)          # the handle travels in the Return_Value exception
         raise Unwind("return", Val(ret, v.kind, v.data, v.st, v.borrowed))
 
-    def st_expr(self, e):
-        """an expression statement whose value is the value of the enclosing function body"""
+    def st_expr(self, e, saving=True):
+        """an expression statement (a direct call f(..) is a Fun_Call: it saves its parameters unless the optimizer made it
+        an Unused_Return_Fun_Call); as the last statement of a function body its value is the value of the body"""
+        if e[0] == "reffn":
+            return self.ev_reffn(e[1], e[2], saving)
         return self.ev(e)
 
     def st_eval_boundary(self):
@@ -920,7 +976,7 @@ def r_expr(e):
     if k == "dynobj": return "Dynamic_Object()"
     if k == "lambda": return "fun[%s](%s) %s" % (", ".join(e[1]), ", ".join(e[2]), r_block(e[3], 0, inline=True))
     if k == "bind": return "bind(%s, %s)" % (e[1], r_expr(e[2]))
-    if k == "call": return "%s(%s)" % (e[1], ", ".join(r_expr(a) for a in e[2]))
+    if k in ("call", "callv"): return "%s(%s)" % (e[1], ", ".join(r_expr(a) for a in e[2]))
     if k == "seed": return "Seed(%d)" % e[1]
     raise ValueError(k)
 
@@ -946,6 +1002,17 @@ def r_stmt(s, ind=0):
     if k == "keep": return "keep(%s);" % r_expr(s[1])
     if k == "release": return "release_kept();"
     if k == "reseat": return "reseat(%s, %d);" % (s[1], s[2])
+    if k == "refbind": return "%s := %s;" % (s[1], s[2])
+    if k == "cpush":
+        arg = {"ref": s[3], "copy": s[3], "bind": "bind(ident, %s)" % s[3], "clo": "fun[%s]() { %s }" % (s[3], s[3])}[s[2]]
+        return "%s.%s(%s);" % (s[1], "push_back_ref" if s[2] == "ref" else "push_back", arg)
+    if k == "checkval":
+        src = s[2]
+        if src[0] == "var":
+            ex = src[1]
+        else:
+            ex = "%s[%d]" % (src[1], src[2]) + ("()" if src[3] in ("bind", "clo") else "")
+        return 'checkval("%s", %s);' % (s[1], ex)
     if k == "push": return "%s.%s(%s);" % (s[1], "push_back_ref" if (len(s) > 3 and s[3]) else "push_back", r_expr(s[2]))
     if k == "popback": return "%s.pop_back();" % s[1]
     if k == "clear": return "%s.clear();" % s[1]
@@ -1003,6 +1070,8 @@ def parse_obs(line):
             items.append(("in:" + f[1], int(f[2])))
         elif f[0] in ("end", "final"):
             items.append((f[0], int(f[1])))
+        elif f[0] == "val":
+            items.append(("val:" + f[1], int(f[2])))
         elif f[0] in ("TOUCH-AFTER-DESTROY", "DOUBLE-DESTROY"):
             faults.append(it)
         elif f[0] == "err":
@@ -1788,6 +1857,131 @@ def probe_program(rnd):
 
 
 # ------------------------------------------------------------------------------------------------
+# loop counters referred to after their loop (value observations)
+# ------------------------------------------------------------------------------------------------
+def counter_program(rnd):
+    """counting loops whose variable escapes: bound by reference to an outer variable (keep := i), pushed by reference,
+    bound as an argument (bind(ident, i)), captured by a closure made in the body or in a nested counting loop; the values
+    read through the escaped handles after (and during) the loops are observations"""
+    g = Gen(rnd)
+    g.cur_region = 0
+    seg = []
+    for _ in range(rnd.randrange(0, 3)):
+        seg += g.gen_stmt(1)
+    defs = {}
+    labels = [0]
+
+    def lab():
+        labels[0] += 1
+        return "v%d" % labels[0]
+    nloops = rnd.randrange(1, 4)
+    uses_bind = False
+    for li in range(nloops):
+        iv, n = g.name("i"), rnd.randrange(1, 5)
+        kind = rnd.choice(["keep", "ref", "bind", "clo", "nested-clo", "copy", "mixed"])
+        body, after = [], []
+        kinds = [kind] if kind != "mixed" else rnd.sample(["keep", "ref", "bind", "clo", "copy"], 3)
+        for k in kinds:
+            if k == "keep":
+                kv = g.name("keep")
+                seg.append(("declplain", kv))
+                body.append(("refbind", kv, iv))
+                if rnd.random() < 0.4:
+                    body.append(("checkval", lab(), ("var", kv)))
+                after.append(("checkval", lab(), ("var", kv)))
+            elif k == "nested-clo":
+                vs, jv, m = g.name("fs"), g.name("j"), rnd.randrange(1, 3)
+                seg.append(("decl", vs, ("vec", [])))
+                body.append(("cfor", jv, m, [("cpush", vs, "clo", iv)] + ([g.cp()] if rnd.random() < 0.3 else [])))
+                cnt = m * n
+                after += [("checkval", lab(), ("velem", vs, rnd.randrange(cnt), "clo")) for _ in range(rnd.randrange(1, 3))]
+            else:
+                vs = g.name("cs")
+                seg.append(("decl", vs, ("vec", [])))
+                body.append(("cpush", vs, k, iv))
+                uses_bind = uses_bind or k == "bind"
+                after += [("checkval", lab(), ("velem", vs, rnd.randrange(n), k)) for _ in range(rnd.randrange(1, 3))]
+        brk = None
+        if rnd.random() < 0.3 and kind != "nested-clo" and n > 1:
+            brk = rnd.randrange(1, n)
+            body.append(("breakif", iv, brk))
+            # elements pushed before the break only
+            after = [a for a in after if a[2][0] == "var" or a[2][2] <= brk]
+        if rnd.random() < 0.3:
+            body.append(g.cp())
+        seg.append(("cfor", iv, n, body))
+        if rnd.random() < 0.4:
+            seg += g.gen_stmt(0)
+        seg += after
+    seg.append(g.cp())
+    if uses_bind:
+        defs["ident"] = (["x"], [("return", ("var", "x"))])
+    return {"flags": dict(g.flags), "defs": dict(g.defs, **defs), "segments": [seg], "family": "counter"}
+
+
+# ------------------------------------------------------------------------------------------------
+# functions whose last statement returns a reference into a temporary argument
+# ------------------------------------------------------------------------------------------------
+def pick_program(rnd):
+    """def pick() { pass(<temporary>) } where pass returns a reference/pointer into its argument, and the caller uses the
+    result within the same statement.  With the optimizer the body is scopeless and the last call saves its argument in the
+    caller's call_params list: the temporary lives until the caller's outermost call ends (specification: no fault).
+    When the body has its own scope (a declaration in it, or the unoptimised parser) the list dies with the body and the
+    result dangles: the specification run itself reports the use after destruction, and a fault of the implementation is
+    the known finding handle_return.hpp:Handle_Return<T&>:reference-into-temporary-owner."""
+    g = Gen(rnd)
+    g.cur_region = 0
+    seg = []
+    for _ in range(rnd.randrange(0, 3)):
+        seg += g.gen_stmt(1)
+    defs = {}
+    variant = rnd.choice(["def", "def", "lambda", "def-with-decl", "def-param", "nonlast"])
+    fn = rnd.choice(["ref_of", "cref_of", "ptr_of", "cptr_of"])
+    temp = rnd.choice([("ctor", rnd.randrange(1, 9)), ("factory", "make_value", 3), ("factory", "make_sp", 4)])
+    const = fn in ("cref_of", "cptr_of")
+    consumers = ["by_cref", "by_cptr", "by_value", "by_bv"] + ([] if const else ["by_ref", "by_ptr"])
+    name = "pk"
+    pre = [g.cp()] if rnd.random() < 0.5 else []
+    if variant == "lambda":
+        seg.append(("decl", name, ("lambda", [], [], pre + [("expr", ("reffn", fn, temp))])))
+        callx = ("callv", name, [])
+    elif variant == "def-with-decl":
+        defs[name] = ([], [("decl", "d0", ("ctor", 1))] + pre + [("expr", ("reffn", fn, temp))])
+        callx = ("call", name, [])
+    elif variant == "def-param":
+        defs[name] = (["t0"], pre + [("expr", ("reffn", fn, ("var", "t0")))])
+        callx = ("call", name, [temp])
+    elif variant == "nonlast":
+        defs[name] = ([], [("expr", ("reffn", fn, temp)), g.cp(), ("expr", ("reffn", fn, temp)), g.cp()])
+        callx = None
+    else:
+        defs[name] = ([], pre + [("expr", ("reffn", fn, temp))])
+        callx = ("call", name, [])
+
+    def use():
+        if callx is None:
+            return [("calld", name, [])]
+        k = rnd.choice(["call", "call", "declcall", "touch"] + (["copy"] if fn == "ref_of" else []))
+        if k == "call":
+            return [("cxxcall", rnd.choice(consumers), callx)]
+        if k == "declcall":
+            return [("declcall", g.name("n"), rnd.choice(consumers), callx)]
+        if k == "copy":
+            return [("decl", g.name("c"), callx)]
+        return [("touch", callx, rnd.choice(["get", "id"] + ([] if const else ["set"])))]
+    uses = []
+    for _ in range(rnd.randrange(1, 4)):
+        uses += use()
+    if rnd.random() < 0.5 and variant != "lambda":
+        # the caller is itself a script function: its scope's list holds the temporary
+        defs["caller"] = ([], uses + [g.cp()])
+        seg += [("calld", "caller", []), g.cp()]
+    else:
+        seg += uses + [g.cp()]
+    return {"flags": dict(g.flags), "defs": dict(g.defs, **defs), "segments": [seg], "probe": "pick:" + variant, "family": "pick"}
+
+
+# ------------------------------------------------------------------------------------------------
 # the check
 # ------------------------------------------------------------------------------------------------
 def corpus_programs():
@@ -1814,10 +2008,10 @@ def tuplify(x):
     return x
 
 
-STMT_KINDS = {"reseat", "cp", "decl", "declplain", "refdecl", "assign", "assign_undef", "touch", "cxxcall", "declcall", "keep", "release", "push", "popback", "clear",
+STMT_KINDS = {"refbind", "cpush", "checkval", "reseat", "cp", "decl", "declplain", "refdecl", "assign", "assign_undef", "touch", "cxxcall", "declcall", "keep", "release", "push", "popback", "clear",
               "erase", "mapset", "attrset", "callf", "calld", "callbound", "block", "if", "cfor", "breakif", "continueif", "rfor", "try", "throw", "fail",
               "return", "expr"}
-EXPR_KINDS = {"var", "ctor", "factory", "cxx", "reffn", "elem", "attr", "vec", "map", "owner", "dynobj", "lambda", "bind", "call", "seed"}
+EXPR_KINDS = {"callv", "velem", "var", "ctor", "factory", "cxx", "reffn", "elem", "attr", "vec", "map", "owner", "dynobj", "lambda", "bind", "call", "seed"}
 
 
 def tuplify_arg(kind, i, a):
@@ -1849,6 +2043,12 @@ def make_cases(tier, seed, part="all"):
     for i in range(nprobe):
         rnd = random.Random(rnd0.getrandbits(48))
         progs.append(("probe", probe_program(rnd), None))
+    for i in range(nprobe):
+        rnd = random.Random(rnd0.getrandbits(48))
+        progs.append(("pick", pick_program(rnd), None))
+    for i in range(nprobe * 2):
+        rnd = random.Random(rnd0.getrandbits(48))
+        progs.append(("counter", counter_program(rnd), None))
     cases = []
     for origin, prog, feats in progs:
         for opt in (True, False):
@@ -1875,7 +2075,7 @@ def judge(c, case, impl, spec, mech):
     """classification of one case; returns a tag for the distribution"""
     items, faults, errs = parse_obs(impl)
     st = spec.split()
-    spec_counts = [t for t in st if t.isdigit()]
+    spec_counts = [t if t.isdigit() else t[1:] for t in st if t.isdigit() or (t[0] == "V" and t[1:].isdigit())]
     spec_uaf = "UAF" in st
     info = {"script": case["script"], "optimizer": case["opt"], "ops": case["ops"], "impl": impl if len(impl) < 4000 else impl[:4000] + "...",
             "spec": spec, "format": "script = ChaiScript text fed (hex) to harness/h_life; ops = the same program as LifeIO operation history"}
@@ -1891,6 +2091,10 @@ def judge(c, case, impl, spec, mech):
             c.disagree("life: a generated program outside the probes leaves the covered discipline", info, impl, spec)
             return "uncovered"
         if crashed or faults:
+            if str(case["prog"]["probe"]).startswith("pick:"):
+                c.fail("a reference returned by a C++ function into its temporary argument outlives the call_params list that held the temporary: "
+                       + (faults[0] if faults else "sanitizer abort"), info, finding_key=FINDING_KEY_REF)
+                return "probe:fault(known finding: reference into temporary)"
             c.fail("ranged-for element reference captured by a closure outlives the container: " + (faults[0] if faults else "sanitizer abort"), info, finding_key=FINDING_KEY)
             return "probe:fault(known finding)"
         return "probe:no-fault-observed"
@@ -1911,6 +2115,10 @@ def judge(c, case, impl, spec, mech):
         c.disagree("life: the program took a different path than the generator planned", info, impl, spec)
         return "path"
     for (n, a), (_, b) in zip(got, exp):
+        if a != b and n.startswith("val:"):
+            c.fail("the value read through a handle is not the last value of the object it refers to (%s: implementation %s, specification %s): "
+                   "the referred object is gone or is not the one the script value owns" % (n, a, b), info)
+            return "value"
         if a != b:
             more = int(a) > int(b)
             where = "after the engine was destroyed" if n in ("end", "final") else "at " + n
@@ -1991,6 +2199,15 @@ def shrink(case, tag, hbin, sbin, budget=120):
                     progress = True
                 else:
                     i += 1
+    for name in list(best["prog"].get("defs", {})):          # script functions that are no longer needed
+        if budget <= 0:
+            break
+        prog = copy_prog(best["prog"])
+        del prog["defs"][name]
+        budget -= 1
+        t, cand = verdict(prog)
+        if t == tag:
+            best = cand
     return best
 
 
@@ -2109,7 +2326,7 @@ def replay(path):
     if err.strip():
         print("stderr (sanitizer / harness):\n" + err[-3500:])
     items, faults, errs = parse_obs(out[0]) if out else (None, ["<none>"], [])
-    counts = [t for t in spec.split() if t.isdigit()]
+    counts = [t if t.isdigit() else t[1:] for t in spec.split() if t.isdigit() or (t[0] == "V" and t[1:].isdigit())]
     bad = items is None or bool(faults) or [str(k) for _, k in items] != counts
     print("REPRODUCED" if bad else "not reproduced")
     return 1 if bad else 0
